@@ -378,6 +378,7 @@ func runChainJob(r *Runner, j chainJob, idx int) {
 		}
 		var verr error
 		var vp any
+		asked := "asked once"
 		func() {
 			defer func() { vp = recover() }()
 			v, e := revocation.NewWithOptions(revocation.Options{OCSPHTTPClient: &http.Client{Transport: roundTripFunc(func(*http.Request) (*http.Response, error) { return nil, errors.New("no network") })},
@@ -386,13 +387,25 @@ func runChainJob(r *Runner, j chainJob, idx int) {
 				panic(e)
 			}
 			_, verr = v.ValidateContext(context.Background(), revocation.ValidateContextOptions{CertChain: chain})
+			// the same question again to the same validator, and once to a validator that has answered it for every chain of
+			// this run before: the answer is about the chain, not about what the validator has seen
+			for _, again := range []revocation.Validator{v, sharedChainValidator(pp)} {
+				_, verr2 := again.ValidateContext(context.Background(), revocation.ValidateContextOptions{CertChain: chain})
+				var ice2 result.InvalidChainError
+				if errors.As(verr2, &ice2) != errors.As(verr, &ice2) {
+					// report the deviating answer
+					verr = verr2
+					asked = "asked again"
+					break
+				}
+			}
 		}()
 		var ice result.InvalidChainError
 		refused := errors.As(verr, &ice)
 		if vp != nil || refused != (implErr != nil) {
 			lc := &Case{ID: fmt.Sprintf("%s-%d-revocation-validator", j.label, idx), K: "chain", In: in, Class: "revocation-validator:" + j.label,
 				Impl:   map[string]any{"chain_validator_accepts": implErr == nil, "revocation_validator_refuses_as_invalid_chain": refused, "panic": vp},
-				Replay: map[string]any{"chain_pem": pemChain(chain), "purpose": j.purpose, "revocation_validator_error": fmt.Sprint(verr)}}
+				Replay: map[string]any{"chain_pem": pemChain(chain), "purpose": j.purpose, "revocation_validator_error": fmt.Sprint(verr), "revocation_validator": asked + " (a fresh validator twice, then a validator shared by all chains of the run)"}}
 			lc.local, lc.localClause = true, "revocation_validator_and_chain_validator_disagree_about_the_chain"
 			r.Submit(lc)
 		}
@@ -562,4 +575,25 @@ func genChain(r *Runner, purpose string) {
 	}
 	close(ch)
 	wg.Wait()
+}
+
+var (
+	sharedValMu sync.Mutex
+	sharedVals  = map[purpose.Purpose]revocation.Validator{}
+)
+
+// sharedChainValidator: one validator per purpose for the whole run (no source is ever contacted)
+func sharedChainValidator(pp purpose.Purpose) revocation.Validator {
+	sharedValMu.Lock()
+	defer sharedValMu.Unlock()
+	if v, ok := sharedVals[pp]; ok {
+		return v
+	}
+	v, e := revocation.NewWithOptions(revocation.Options{OCSPHTTPClient: &http.Client{Transport: roundTripFunc(func(*http.Request) (*http.Response, error) { return nil, errors.New("no network") })},
+		CRLFetcher: &scriptedFetcher{m: map[string]*fetchBehaviour{}}, CertChainPurpose: pp})
+	if e != nil {
+		panic(e)
+	}
+	sharedVals[pp] = v
+	return v
 }
